@@ -55,6 +55,7 @@ class Registry:
         self.props = {}         # property id -> dict(fucs=[...], lemmas=[...])
         self.consts = {}
         self.scenarios = {}     # obligation-name prefix -> replay scenario callable
+        self.overridden = []    # (qualname, what happened) for contracts declared more than once
 
 
 REG = Registry()
@@ -76,15 +77,28 @@ def module_state(modname, fields):
 
 
 def contract(qualname, params=None, returns=NoneT, **opts):
+    """Contract that is proved on the function's source (and used at its call sites).  One per function (a second, more detailed
+    one goes under "<qualname>@<view>"); it replaces an assumed contract of the same function whatever the load order."""
     def deco(fn):
+        prev = REG.contracts.get(qualname)
+        if prev is not None and prev.kind == "contract":
+            raise RuntimeError("two @contract declarations for %s (%s and %s)" % (qualname, prev.file, fn.__code__.co_filename))
+        if prev is not None:
+            REG.overridden.append((qualname, "assumed contract replaced by the proved one"))
         REG.contracts[qualname] = FuncDecl("contract", qualname, fn, params, returns, **opts)
         return fn
     return deco
 
 
 def assumed(qualname, params=None, returns=NoneT, **opts):
-    """Contract that is used at call sites but not proved (outside the verifier's reach)."""
+    """Contract that is used at call sites but not proved (outside the verifier's reach).  Never replaces a proved contract."""
     def deco(fn):
+        prev = REG.contracts.get(qualname)
+        if prev is not None and prev.kind == "contract":
+            REG.overridden.append((qualname, "assumed contract ignored: the function has a proved contract"))
+            return fn
+        if prev is not None:
+            REG.overridden.append((qualname, "assumed contract declared twice: the later declaration is used"))
         REG.contracts[qualname] = FuncDecl("assumed", qualname, fn, params, returns, **opts)
         return fn
     return deco
